@@ -250,9 +250,10 @@ func (p *plan) add(r *Req, class, name string, slots []Mutation) {
 // walker: on one rendering, rotating, of every structure that can play it).
 // The whole public walk runs, quick: on one rendering (picked by index and
 // seed) of every N = 2 wiring; thorough: on every rendering of the N = 2
-// wirings and on one rendering of every N = 3 wiring.  The N = 3 wirings of
-// the two largest walkers are taken in shards of 1/8 that rotate with
-// VERIF_SEED, so that eight runs with consecutive seeds cover everything.
+// wirings and on one rendering of every second N = 3 wiring (alternating with
+// VERIF_SEED: two runs cover all).  The N = 3 wirings of the two largest
+// walkers are taken in shards of 1/8 that rotate with VERIF_SEED, so that
+// eight runs with consecutive seeds cover everything.
 func wiringCases(ctx *core.Ctx, pl *plan, wirings []*Wiring, count *[3]int) func() *Req {
 	shard := int(ctx.Seed % 8)
 	seed := int(ctx.Seed)
@@ -282,7 +283,8 @@ func wiringCases(ctx *core.Ctx, pl *plan, wirings []*Wiring, count *[3]int) func
 			}
 			count[0]++
 			pickV := (idx + seed) % 4
-			fullOK := w.N <= 2 || ctx.Thorough()
+			// N = 3: the whole public walk on every second wiring, alternating with the seed
+			fullOK := w.N <= 2 || ctx.Thorough() && (idx+seed)%2 == 0
 			switch w.Walker {
 			case "decode":
 				// one file per structure; renderings rotate
@@ -336,7 +338,8 @@ func run(ctx *core.Ctx) error {
 		"pipe scenario rows per site, and for the exploration distinct (call, outcome class, mutated slot) triples"
 	ctx.Ev.Assume("TLC; Go's runtime accounting (runtime/metrics heap allocs, getrusage CPU time, runtime.NumGoroutine); the envelope constants are calibrated, not derived")
 	ctx.Ev.Assume("beyond the enumerated wirings (N <= 3, <= 3 slots per object) and the generated chains/ladders, totality over arbitrary bytes is explored by seeded mutation, not decided")
-	ctx.Ev.Assume("a worker process has a 16 MiB Go stack limit (the documented depth caps allow 256 nesting levels: 64 KiB per level) and a 6 GiB address space; exhausting either is the outcome 'fatal'")
+	ctx.Ev.Assume("worker processes run under a 16 MiB Go stack cap (screening) and a 6 GiB address space; a stack overflow is a violation only if it happens again under 256 MiB with the generated structure made 16 times longer (a recursion that grows with the input, or an endless one); an overflow of a bounded recursion (go-pdf allows 256 references x 256 direct levels) is printed as NOTE extension=bounded-recursion")
+	ctx.Ev.Assume("package walker is outside the entry points C05 names: its deviations are printed as NOTE extension=walker and counted in extension_findings, never as violations")
 
 	if err := runModels(ctx); err != nil {
 		return err
